@@ -197,6 +197,16 @@ class TraceVisitor(Visitor):
             self.index = index
             self.visit(loop.statements)
 
+        if loop.iterations < 1:
+            # The body is never executed: skip every trace that starts
+            # inside this loop, or the walk would never advance past it.
+            while self.objective and self.objective[: len(address)] == address:
+                self.index += 1
+                if self.index == len(self.traces):
+                    self.objective = None
+                else:
+                    self.objective = self.traces[self.index].start
+
     def visit_CaseStatement(self, case):
         # store the walk status
         index = self.index
